@@ -41,8 +41,8 @@ def shift(t, k):
 
 
 @st.composite
-def _cases(draw):
-    s = draw(gen.score_sets(max_size=10, modes=MODES, mag=1e6))
+def _cases(draw, max_size=10):
+    s = draw(gen.score_sets(max_size=max_size, modes=MODES, mag=1e6))
     pops = [len(s["pos"]) + s["ep"], len(s["neg"]) + s["en"],
             len(s["pos"]) + len(s["neg"]) + s["ep"] + s["en"]]
     k = draw(st.integers(1, 5))
@@ -202,7 +202,7 @@ PROP = Prop(
           "target strictly inside the achievable range and relevant scores not all equal. Cases "
           "whose relevant scores are unequal but <16 ulps apart are skipped (label)."),
     clauses=[
-        Clause("round_trip_coherence", check, strategy=_cases(), quick=350, thorough=1500,
+        Clause("round_trip_coherence", check, strategy=lambda tier: _cases(10 if tier == "quick" else 30), quick=350, thorough=7500,
                quick_shards=4, min_nontrivial=100,
                doc="round trip within one sample; lower/higher/linear coherence; monotone; aliases"),
         Clause("rejections", check_invalid, strategy=_invalid_cases, quick=40, thorough=100,
